@@ -46,6 +46,7 @@ partial def loop (hin hout : IO.FS.Stream) : IO Unit := do
   let t := line.trimAscii.toString
   if !t.isEmpty then
     hout.putStrLn (handleLine t)
+    hout.flush
   loop hin hout
 
 def main : IO Unit := do
